@@ -1,3 +1,133 @@
-(* C09 -- statements land here; model XV.XmlFmt, projections XV.Projections, proofs XV.XmlFmtProofs*. *)
-From Coq Require Import List NArith.
-Require Import XV.XmlFmt.
+(* C09 -- accepting every marked change in the XML formatter's output reproduces the right document.
+
+   Model: XV.XmlFmt (XMLFormatter: prepare, every handler, _xpath, _make_diff_tags, finalize), tied to
+   xmldiff/formatting.py by harness/xmlfmt_corr.py on every run; projections: XV.Projections.accept.
+   Only statements here; proofs in XV.XmlFmtProofs0-9, A.
+
+   Vocabulary
+     L, root              the PREPARED left document as an id-indexed forest (XV.Forest): comment-free;
+     W = remove_comments (doc_tree L root)   the same document as the formatter's working tree;
+     run_spec root L script = Some fT        the identity-level script applied with the documented (strict) meaning
+                          of the actions gives the forest fT -- for Differ output this is DifferSound.gen_script_sound /
+                          gen_script_replay, which also gives doc_equiv fT R (the right document);
+     render_script pe root L script = Some gs   gs are the namedtuples Differ yields: every node written as
+                          utils.getpath(node) in the tree as it is before the action (XV.Render);
+     fscript_ok           along the script the prefixes printed by the prefix policy pe are bound in the formatter's
+                          namespace map (root declarations, then InsertNamespace) and names are printable XPath names
+                          (as PatcherProofs.script_ok; checkable by computation);
+     names_plain          attribute actions do not name attributes of the diff namespace;
+     run_ok               side conditions on the RUN of the model (XmlFmtProofs4.step_ok at every step): a text update
+                          meets a text that carries no diff markup yet (each text is updated at most once), a node is
+                          renamed at most once, inserted tags are not diff:insert/delete/replace, action texts contain no
+                          private-use character, the tail of the root is not updated.  True of Differ scripts; evaluated
+                          by the harness (run_okb) on every generated script (a TESTED premise, reported as such);
+     npua W, clean_tags W, nodiff W   the document has no private-use character in texts/tails, no element named
+                          diff:insert/delete/replace, no attribute in the diff namespace;
+     xequiv ws a b        equal up to attribute order, absent vs empty text, the tail of the root, and -- when
+                          ws = normalize & WS_TEXT -- whitespace normalisation of every text and tail.
+
+   PARTIAL: proved for configurations without text tags and without use_replace.  Missing for the full statement:
+   (1) text_tags <> []: the property then speaks of the flattened content of text tags only; covered by the
+       correspondence check and the accept oracle (harness/xmlfmt_corr.py: project), not by a theorem;
+   (2) use_replace = true (the maker then grows by one placeholder per replaced text): covered by correspondence +
+       oracle only;
+   (3) the premise run_ok is a condition on the run rather than a consequence of "script = Differ output". *)
+From Coq Require Import List NArith ZArith Bool.
+Import ListNotations.
+Require Import XV.Str XV.Json XV.TextFormat XV.Forest XV.Matcher XV.Differ XV.Spec XV.Path XV.WF XV.PathProofs XV.Render
+               XV.XmlFmt XV.Projections XV.XmlFmtProofs3 XV.XmlFmtProofs4 XV.XmlFmtProofs5 XV.XmlFmtProofs9 XV.XmlFmtProofsA.
+Require XV.Placeholder XV.PlaceholderUndo XV.DMP.
+Local Open Scope N_scope.
+
+Theorem C09_accept_partial :
+  forall (c : cfg) (o : oracle) (rootns : list (option str * str)) (pe : penv) (root : id)
+         (L : forest) (script : list iact) (gs : list gaction) (fT : forest) (T : xtree),
+  c_tt c = [] -> c_replace c = false ->
+  wf_forest L root -> (forall m, desc L root m -> is_comment (ltag (flab L m)) = false) ->
+  let W := remove_comments (doc_tree L root) in
+  PlaceholderUndo.npua W = true -> clean_tags W -> nodiff W ->
+  run_spec root L script = Some fT -> render_script pe root L script = Some gs ->
+  fscript_ok rootns pe root [(Some DIFF_PREFIX, DIFF_NS)] L script -> Forall names_plain script ->
+  run_ok c o rootns (FS W Placeholder.ph_init [(Some DIFF_PREFIX, DIFF_NS)]) gs ->
+  xml_format c o rootns Placeholder.ph_init gs W = FOk T ->
+  xequiv (ws_text c) (accept T) (remove_comments (doc_tree fT root)).
+Proof. intros c o rootns pe root L script gs fT T _. exact (accept_format c o rootns pe root L script gs fT T). Qed.
+Print Assumptions C09_accept_partial.
+
+(* without text tags prepare() only removes the comments and leaves the maker as created: the state and the
+   tree xml_format is started with above are the ones main.diff_trees hands to format() *)
+Theorem C09_prepare_notags : forall c L R, c_tt c = [] ->
+  prepare c L R = (Placeholder.ph_init, remove_comments L, remove_comments R).
+Proof. exact prepare_notags. Qed.
+Print Assumptions C09_prepare_notags.
+
+(* C09/C10 are stated against the documents as prepare() leaves them.  Known finding "comment-tail-dropped":
+   that is NOT the document with its comments removed -- the text following a comment is lost
+   (<a><!--c-->tail<b/></a>: remove_comments gives <a><b/></a>, the correct removal <a>tail<b/></a>). *)
+Theorem C09_prepare_keeps_text_refuted :
+  exists t, remove_comments t <> strip_comments t /\
+            Placeholder.xtext (remove_comments t) = None /\
+            Placeholder.xtext (strip_comments t) = Some [116; 97; 105; 108].
+Proof. exact remove_comments_drops_tail_refuted. Qed.
+Print Assumptions C09_prepare_keeps_text_refuted.
+
+(* Non-vacuity: <a><b>xy</b>t<c/></a>; move c into b, b's text := "xz", rename c -> d, attribute k="1" on a,
+   insert <e/> and delete it again.  Every premise holds (by computation) and the conclusion follows. *)
+Definition exL : forest := mk_forest [(0%nat, [1%nat; 2%nat])]
+  [(0%nat, Lab (TElem [97]) [] None None); (1%nat, Lab (TElem [98]) [] (Some [120;121]) (Some [116]));
+   (2%nat, Lab (TElem [99]) [] None None)] 3.
+Definition exS : list iact :=
+  [IMove 2%nat 1%nat 0%nat; IText 1%nat (Some [120;122]); IRename 2%nat [100]; IInsAttr 0%nat [107] [49];
+   IInsert 0%nat [101] 0%nat 3%nat; IDelete 3%nat].
+Definition exPe : penv := fun _ => None.
+Definition exO : oracle :=
+  Orc {| DMP.isalnum := fun c => (97 <=? c) && (c <=? 122); DMP.isspace := fun c => c =? 32 |} (fun _ => false).
+Definition exC : cfg := Cfg 0 false [] [].
+
+Fixpoint fscript_okb (rootns : list (option str * str)) (pe : penv) (root : id)
+         (ns : list (option str * str)) (f : forest) (script : list iact) : bool :=
+  match script with
+  | [] => true
+  | a :: r =>
+      env_agreesb pe (some_ns rootns ++ some_ns (rev ns)) f root && names_okb pe f root &&
+      match spec_apply root f a with
+      | Some f' => fscript_okb rootns pe root (ns_after a ns) f' r
+      | None => true
+      end
+  end.
+Lemma fscript_okb_sound rootns pe root script : forall ns f,
+  fscript_okb rootns pe root ns f script = true -> fscript_ok rootns pe root ns f script.
+Proof.
+  induction script as [|a r IH]; intros ns f H; cbn [fscript_okb fscript_ok] in *; [exact I|].
+  apply andb_true_iff in H as [H H3]. apply andb_true_iff in H as [H1 H2].
+  split; [apply env_agreesb_iff, H1|]. split; [apply names_okb_iff, H2|].
+  destruct (spec_apply root f a); [apply IH, H3|exact I].
+Qed.
+
+Example C09_example :
+  exists gs fT T,
+    run_spec 0%nat exL exS = Some fT /\ render_script exPe 0%nat exL exS = Some gs /\
+    xml_format exC exO [] Placeholder.ph_init gs (remove_comments (doc_tree exL 0%nat)) = FOk T /\
+    xequiv (ws_text exC) (accept T) (remove_comments (doc_tree fT 0%nat)).
+Proof.
+  destruct (run_spec 0%nat exL exS) as [fT|] eqn:E1; [|vm_compute in E1; discriminate].
+  destruct (render_script exPe 0%nat exL exS) as [gs|] eqn:E2; [|vm_compute in E2; discriminate].
+  destruct (xml_format exC exO [] Placeholder.ph_init gs (remove_comments (doc_tree exL 0%nat))) as [T|e] eqn:E3.
+  2:{ exfalso. revert E3. vm_compute in E2. inversion E2; subst gs. vm_compute. discriminate. }
+  exists gs, fT, T. split; [reflexivity|]. split; [reflexivity|]. split; [exact E3|].
+  apply (C09_accept_partial exC exO [] exPe 0%nat exL exS gs fT T eq_refl eq_refl).
+  - apply wf_forestb_sound. vm_compute. reflexivity.
+  - intros m Hm. assert (Hin : In m (doc_nodes exL 0%nat)).
+    { apply TreeProofs.doc_nodes_iff; [apply wf_forestb_sound; vm_compute; reflexivity|exact Hm]. }
+    vm_compute in Hin. destruct Hin as [<-|[<-|[<-|[]]]]; reflexivity.
+  - vm_compute. reflexivity.
+  - repeat (constructor; try reflexivity).
+  - repeat (constructor; try reflexivity).
+  - exact E1.
+  - exact E2.
+  - apply fscript_okb_sound. vm_compute. reflexivity.
+  - repeat constructor; reflexivity.
+  - apply run_okb_sound. vm_compute in E2. inversion E2; subst gs. vm_compute. reflexivity.
+  - exact E3.
+Qed.
+Print Assumptions C09_example.
